@@ -76,6 +76,56 @@ def rule_triple(ctx: Ctx) -> RuleResult:
     return rr
 
 
+def rule_last_row_triple(ctx: Ctx) -> RuleResult:
+    """_last_row re-assembles the bottom row: every (attr, charset, text) cell it builds must take the three
+    components from the same source cell of the row."""
+    p = ctx.p
+    rr = RuleResult("TRIPLE", "C04.1b", "every cell tuple built by _last_row takes attribute, charset and text from the same source cell", floor=4)
+    fi = p.func(f"{RAW}.Screen._last_row")
+    du = DefUse(fi)
+
+    def sources(e, at, depth=0, seen=None):
+        """set of source cells ('row[-1]', ...) the value can come from"""
+        seen = seen if seen is not None else set()
+        if depth > 8:
+            return {"?"}
+        if isinstance(e, ast.Subscript):
+            inner = e.value
+            if isinstance(inner, ast.Subscript) and isinstance(inner.value, ast.Name) and inner.value.id == fi.params[1]:
+                return {ast.unparse(inner)}
+            if isinstance(inner, ast.Name) and inner.id == fi.params[1] and not isinstance(e.slice, ast.Slice):
+                return {ast.unparse(e)}
+            return sources(inner, at, depth + 1, seen)  # a slice / index of a text keeps its source
+        if isinstance(e, ast.Name):
+            out = set()
+            defs = du.reaching(e.id, at)
+            for v, how, dn in defs:
+                if (e.id, dn.id, at.id) in seen:
+                    continue
+                seen.add((e.id, dn.id, at.id))
+                if v is None or not isinstance(v, ast.AST):
+                    out.add("?")
+                else:
+                    out |= sources(v, dn, depth + 1, seen)
+            return out if defs else {"?"}
+        return {"?"}
+
+    n = 0
+    for node in du.cfg.nodes:
+        if node.ast is None or node.kind in ("for", "with", "handler"):
+            continue
+        for t in walk_no_nested(node.ast):
+            if isinstance(t, ast.Tuple) and len(t.elts) == 3 and isinstance(t.ctx, ast.Load) and all(isinstance(x, (ast.Name, ast.Subscript)) for x in t.elts):
+                srcs = [sources(x, node) for x in t.elts]
+                if any("?" in s_ for s_ in srcs):
+                    continue
+                n += 1
+                rr.inst(f"{norm(t, 60)}", True, {"cell": norm(t, 60), "sources": [sorted(s_) for s_ in srcs]} if len(rr.samples) < 5 else None)
+                if not (srcs[0] == srcs[1] == srcs[2]):
+                    rr.add(finding("TRIPLE", fi, node.stmt, f"the cell `{norm(t, 60)}` combines an attribute from {sorted(srcs[0])}, a charset from {sorted(srcs[1])} and text from {sorted(srcs[2])}: part of the bottom row is painted with another cell's attribute / character set", construct=f"mixed cell {norm(t, 60)}"))
+    return rr
+
+
 def rule_cursor(ctx: Ctx) -> RuleResult:
     p = ctx.p
     rr = RuleResult("PASS", "C04.2", "HIDE_CURSOR is the first output of every draw; SHOW_CURSOR is emitted only under `canvas.cursor is not None`", floor=2)
@@ -225,7 +275,7 @@ def run(ctx: Ctx):
     r7 = c17.rule_palette_total(ctx, "C04.7")
     r8 = c17.rule_palette_order(ctx)
     r8.clause = "C04.8"
-    return [rule_triple(ctx), rule_cursor(ctx), rule_repaint(ctx), rule_charset_first(ctx), rule_html(ctx), r6, r7, r8]
+    return [rule_triple(ctx), rule_last_row_triple(ctx), rule_cursor(ctx), rule_repaint(ctx), rule_charset_first(ctx), rule_html(ctx), r6, r7, r8]
 
 
 _RW = "urwid/display/_raw_display_base.py"
@@ -233,6 +283,7 @@ _HT = "urwid/display/html_fragment.py"
 MUTANTS = [
     Mut("insert-block-uses-loop-cs", _RW, "urwid.display._raw_display_base.Screen.draw_screen", "                    if insertcs is None:\n                        icss = escape.SI", "                    if cs is None:\n                        icss = escape.SI", "LEAK|display._raw_display_base.Screen.draw_screen"),
     Mut("insert-block-uses-loop-attr", _RW, "urwid.display._raw_display_base.Screen.draw_screen", "ias = attr_to_escape(inserta)", "ias = attr_to_escape(a)", "LEAK|display._raw_display_base.Screen.draw_screen"),
+    Mut("last-row-remainder-wrong-attr", _RW, "urwid.display._raw_display_base.Screen._last_row", "new_row.append((y_attr, y_cs, nlast_text[:nlast_offs]))", "new_row.append((z_attr, z_cs, nlast_text[:nlast_offs]))", "TRIPLE|"),
     Mut("show-cursor-unconditional", _RW, "urwid.display._raw_display_base.Screen.draw_screen", "        if canvas.cursor is not None:\n            x, y = canvas.cursor\n            output += [set_cursor_position(x, y), escape.SHOW_CURSOR]\n            self._cy = y", "        x, y = canvas.cursor or (0, 0)\n        output += [set_cursor_position(x, y), escape.SHOW_CURSOR]\n        self._cy = y", "PASS|display._raw_display_base.Screen.draw_screen"),
     Mut("hide-cursor-dropped", _RW, "urwid.display._raw_display_base.Screen.draw_screen", "output: list[str] = [escape.HIDE_CURSOR, attr_to_escape(last_attributes)]", "output: list[str] = [attr_to_escape(last_attributes)]", "PASS|display._raw_display_base.Screen.draw_screen"),
     Mut("clear-keeps-screen-buf", _RW, "urwid.display._raw_display_base.Screen.clear", "        self.screen_buf = None\n", "", "INV|display._raw_display_base.Screen.clear"),
